@@ -451,7 +451,10 @@ static void ser (struct sb *b, struct yaep_tree_node *p, int *nterm)
     {
     case YAEP_NIL: sb_add (b, "-"); break;
     case YAEP_ERROR: sb_add (b, "!"); break;
-    case YAEP_TERM: sprintf (buf, "t%d@%ld", p->val.term.code, (long) ((char *) p->val.term.attr - tags)); sb_add (b, buf); (*nterm)++; break;
+    case YAEP_TERM:
+      if ((char *) p->val.term.attr >= tags && (char *) p->val.term.attr < tags + MAXW) sprintf (buf, "t%d@%ld", p->val.term.code, (long) ((char *) p->val.term.attr - tags));
+      else sprintf (buf, "t%d@?", p->val.term.code);	/* not a token attribute (reported elsewhere); keep the hash deterministic */
+      sb_add (b, buf); (*nterm)++; break;
     case YAEP_ANODE:
       sb_add (b, p->val.anode.name); sprintf (buf, "/%d(", p->val.anode.cost); sb_add (b, buf);
       for (i = 0; p->val.anode.children[i] != NULL; i++) { if (i) sb_add (b, " "); ser (b, p->val.anode.children[i], nterm); }
@@ -752,6 +755,12 @@ static void free_harness_grammar (void)
 static void check_error_state (int rc, const char *list)
 {
   const char *msg;
+  if (opt_trace)
+    {
+      printf ("{\"k\":\"def\",\"lang\":\"%s\",\"g\":", YV_LANG); json_str (stdout, gid);
+      printf (",\"cfg\":\"%s\",\"rc\":%d,\"err\":%d,\"msg\":", cfgstr, rc, G_ERRCODE (cur)); json_str (stdout, rc != 0 ? G_ERRMSG (cur) : "");
+      printf ("}\n");
+    }
   if (rc != 0)
     {
       if (G_ERRCODE (cur) != rc) mismatch_i ("error_code after failing definition", G_ERRCODE (cur), rc);
